@@ -128,6 +128,14 @@ func (d *Driver) DoCtx(ctx context.Context, r HTTPReq) (resp HTTPResp) {
 	d.Mux.ServeHTTP(rec, req)
 	res := rec.Result()
 	b, _ := io.ReadAll(res.Body)
+	// the recorder does not enforce what a real connection does: a body longer than the declared Content-Length is
+	// cut off (and the write fails), a shorter one makes the client fail with an unexpected EOF
+	if cl := res.Header.Get("Content-Length"); cl != "" && r.Method != "HEAD" {
+		if n, err := strconv.Atoi(cl); err != nil || n != len(b) {
+			return HTTPResp{Status: res.StatusCode, Header: res.Header, Body: b,
+				Panic: fmt.Sprintf("malformed response: Content-Length header %q but the handler wrote %d body bytes (a real client receives a truncated body or an unexpected EOF)", cl, len(b))}
+		}
+	}
 	return HTTPResp{Status: res.StatusCode, Header: res.Header, Body: b}
 }
 
@@ -160,6 +168,10 @@ func condQuery(conds map[string]string) string {
 	sort.Strings(ks)
 	s := ""
 	for _, k := range ks {
+		if raw, ok := strings.CutPrefix(conds[k], "RAW:"); ok {
+			s += "&" + k + "=" + raw // deliberately malformed at the URL level
+			continue
+		}
 		s += "&" + k + "=" + url.QueryEscape(conds[k])
 	}
 	return s
@@ -193,6 +205,17 @@ func gzMembers(b []byte, n int) []byte {
 
 // GzipMembers is the number of gzip members request builders use for compressed bodies.
 var GzipMembers = 1
+
+// Gz compresses b (one gzip member); Gunzip is its inverse.
+func Gz(b []byte) []byte { return gz(b) }
+
+func Gunzip(b []byte) ([]byte, error) {
+	zr, err := gzip.NewReader(bytes.NewReader(b))
+	if err != nil {
+		return nil, err
+	}
+	return io.ReadAll(zr)
+}
 
 func MD5b64(b []byte) string {
 	h := md5.Sum(b)
